@@ -168,7 +168,7 @@ Proof.
   intros I A. apply (inv_transfer c e s); auto.
   - eapply agree_trans; [exact A|apply agree_mark_dirty].
   - rewrite (proj2 (flag_mark_dirty x)). discriminate.
-  - intros _. exact (proj1 (flag_mark_dirty x)).
+  - intros _ _. exact (proj1 (flag_mark_dirty x)).
 Qed.
 
 (** * pulling sources *)
@@ -504,4 +504,101 @@ Proof.
   apply (nth_ext_eq _ _ 0%Z).
   - rewrite (agree_len_seen _ _ (rr_agree _ _ _ R)), Hc. exact Hlen.
   - intros k Hk. apply F. apply in_seq. rewrite (agree_len_seen _ _ (rr_agree _ _ _ R)), Hlen in Hk. lia.
+Qed.
+
+(** * the task loop *)
+Lemma inv_weaken c s : INV c true s -> INV c false s.
+Proof. intros []. constructor; auto; discriminate. Qed.
+
+Lemma notify_subs_fields s :
+  let x := notify_subs s in
+  sigs x = sigs s /\ refetch_n x = refetch_n s /\ seen x = seen s /\ st_dirty x = st_dirty s /\
+  flag x = flag s /\ woken x = woken s /\ rx_reg x = rx_reg s /\ version x = version s /\
+  value x = value s /\ loading x = false /\ wakers x = [] /\ task x = task s /\
+  init_fut x = init_fut s /\ first_run x = first_run s /\ futs x = futs s /\ manual x = manual s /\
+  cap x = cap s /\ legit x = legit s.
+Proof.
+  unfold notify_subs, d_mark_dirty, d_notify. sf.
+  destruct (d_sub s); sf; [destruct (d_reg s); sf|]; repeat split; reflexivity.
+Qed.
+
+(** a completed fetch is stored and the task goes back to waiting *)
+Lemma inv_store c e s f v fu : INV c e s -> task s = TFetch f v ->
+  nth_error (futs s) f = Some fu -> INV c e (set_task TIdle (store (f_res fu) s)).
+Proof.
+  intros I Ht Hf. destruct (i_A c e s I f v Ht) as (Hfr & fu' & Hf' & Hal & Hres).
+  rewrite Hf in Hf'. inversion Hf'; subst fu'.
+  unfold store.
+  set (s1 := set_legit (f_res fu :: legit s) (set_manual false (set_value (Some (f_res fu)) s))).
+  destruct (notify_subs_fields s1) as (E1 & E2 & E3 & E4 & E5 & E6 & E7 & E8 & E9 & E10 & E11 & E12 & E13 & E14 & E15 & E16 & E17 & E18).
+  set (x := notify_subs s1) in *.
+  assert (Ec : curvals c (set_task TIdle x) = curvals c s).
+  { unfold curvals, m3_of, m2_of, sg. sf. rewrite E1, E2. reflexivity. }
+  destruct I. constructor; sf; rewrite ?Ec, ?E3, ?E4, ?E5, ?E8, ?E9, ?E10, ?E11, ?E13, ?E14, ?E15, ?E16, ?E17, ?E18;
+    unfold s1; sf; auto.
+  Show.
+Admitted.
+
+Lemma wk_after_store s r : WK (set_woken true (set_task TIdle (store r s))).
+Proof. constructor; sf; auto. Qed.
+
+(** starting a fetch with a newly created future *)
+Definition started (fid : nat) (s : node) : node :=
+  let v := S (version s) in
+  set_task (TFetch fid v) (set_version v (set_loading true (set_first_run false s))).
+
+Lemma inv_start_create c s :
+  (forall v, value s = Some v -> In v (legit s)) ->
+  length (seen s) = length (curvals c s) -> st_dirty s = false -> init_fut s = None ->
+  INV c true (started (fst (create_fut c s)) (snd (create_fut c s))).
+Proof.
+  intros Hprov Hlen Hd Hinit. unfold create_fut. cbn [fst snd].
+  destruct (read_all_spec c s Hlen) as (R & Hseen).
+  set (r := read_all c s) in *.
+  destruct R as [A _ _ Hdr].
+  assert (Hcr : curvals c r = curvals c s) by (apply agree_curvals; exact A).
+  set (fu := mkFut (fetchf c (inputs c r)) false true).
+  set (x := started (length (futs r)) (set_futs (futs r ++ [fu]) (set_cap (inputs c r) r))).
+  assert (Ecx : curvals c x = curvals c r) by reflexivity.
+  assert (Hinx : inputs c x = inputs c r) by reflexivity.
+  constructor; unfold x, started; sf.
+  - intros f v Ht. inversion Ht. reflexivity.
+  - discriminate.
+  - rewrite (ag_value _ _ A), (ag_legit _ _ A). exact Hprov.
+  - fold x. rewrite Ecx, Hseen. reflexivity.
+  - intros f v Ht. inversion Ht; subst. split; [reflexivity|]. exists fu.
+    rewrite nth_error_app2, Nat.sub_diag by lia. auto.
+  - discriminate.
+  - discriminate.
+  - intros _. unfold capof. destruct (shape c) eqn:Hs.
+    + fold x. rewrite Hinx. reflexivity.
+    + sf. rewrite Hseen. symmetry. apply inputs_iv. congruence.
+  - intros _ [H|[H|H]].
+    + rewrite Hdr, Hd in H. discriminate.
+    + discriminate.
+    + exfalso. apply H. fold x. rewrite Ecx. exact Hseen.
+  - rewrite (ag_init_fut _ _ A), Hinit. discriminate.
+Qed.
+
+Lemma inv_start_init c s i : INV c false s -> task s = TIdle -> init_fut s = Some i ->
+  st_dirty s = false -> seen s = curvals c s ->
+  INV c true (started i (set_init_fut None s)).
+Proof.
+  intros I Ht Hi Hd Hseen. destruct (i_init c false s I i Hi) as (Hfr & fu & Hf & Hal & Hres).
+  destruct I. constructor; unfold started; sf; auto.
+  - intros f v H. inversion H. reflexivity.
+  - discriminate.
+  - intros f v H. inversion H; subst. split; [reflexivity|]. exists fu. auto.
+  - discriminate.
+  - discriminate.
+  - intros _ [H|[H|H]]; [congruence|discriminate|contradiction].
+  - discriminate.
+Qed.
+
+Lemma wk_started fid s : WK (started fid s) <->
+  (forall fu, nth_error (futs s) fid = Some fu -> f_done fu = true -> woken s = true).
+Proof.
+  unfold started. split.
+  - intros [_ _ G] fu Hn Hd. exact (G fid (S (version s)) fu eq_refl Hn Hd).
+  - intros H. constructor; sf; try discriminate. intros f v fu Ht Hn Hd. inversion Ht; subst. eauto.
 Qed.
